@@ -17,6 +17,11 @@ import (
 
 // runPlan turns a plan into a concrete spend, runs both interpreters and records evidence.
 func runPlan(k *mon.Case, p *plan, family, kind string, mutation string) {
+	runPlanFlags(k, p, family, kind, mutation, nil)
+}
+
+// runPlanFlags is runPlan with the flag set given by the caller (nil: drawn by pickFlags).
+func runPlanFlags(k *mon.Case, p *plan, family, kind string, mutation string, forced *flagChoice) {
 	r := k.Rand
 	s := randTx(r)
 	s.spent[s.idx] = rs.TxOut{Value: randAmount(r), PkScript: p.pkScript()}
@@ -25,6 +30,9 @@ func runPlan(k *mon.Case, p *plan, family, kind string, mutation string) {
 	}
 	p.assemble(r, s)
 	fc := pickFlags(r)
+	if forced != nil {
+		fc = *forced
+	}
 	s.flags = fc.f
 	d := s.describe(fmt.Sprintf("%s/%s ctx=%s mutation=%s flagset=%s", family, kind, ctxName(p.ctx), mutation, fc.name))
 	k.Desc(d)
@@ -167,6 +175,40 @@ func main() {
 			runPlan(k, p, "spend", kind, mutation)
 		})
 
+		// laxder: the two flag sets of the blocks before BIP66 (nothing, P2SH only), where signatures go through the
+		// lenient parser: every ECDSA signature of a well-formed legacy spend is re-encoded in a lax form (or a form
+		// just outside the lax grammar)
+		c.Family("laxder", c.N(4000, 100000), func(k *mon.Case) {
+			r := k.Rand
+			var p *plan
+			var kind string
+			var qs []*sigReq
+			for try := 0; try < 50; try++ {
+				p, kind = standardPlan(r)
+				qs = qs[:0]
+				for _, q := range p.sigReqs() {
+					if !q.schnorr {
+						qs = append(qs, q)
+					}
+				}
+				if len(qs) > 0 && (p.ctx == ctxBare || p.ctx == ctxP2SH) {
+					break
+				}
+				qs = nil
+			}
+			if len(qs) == 0 {
+				return
+			}
+			for i, q := range qs {
+				if i == 0 || r.Bool() {
+					q.enc = encLaxShape
+				}
+			}
+			i := r.Intn(2)
+			fc := flagChoice{f: historySets[i], class: "consensus", name: "hist" + string(rune('0'+i))}
+			runPlanFlags(k, p, "laxder", kind, "ecdsa-enc-9", &fc)
+		})
+
 		// coverage the monitor must have reached, else the run is inconclusive
 		for _, op := range requiredExecuted() {
 			c.Require("op.exec."+opNames[op], 1)
@@ -181,6 +223,7 @@ func main() {
 			c.Require(fmt.Sprintf("flagset.hist%d", i), 100)
 		}
 		c.Require("flagset.std", 1000)
+		c.Require("sigcheck.verified-only-by-lax-parsing", 1000)
 		c.Require("boundary.stack.limit", 5)
 		c.Require("boundary.stack.limit+1", 5)
 		c.Require("boundary.ops.limit", 5)
